@@ -136,6 +136,15 @@ def real_outcome(pr):
     return ("graph", sx(export_graph(g)), low)
 
 
+def model_outcomes(drv, prepared):
+    """pr.key() -> ('graph', lowerable) | ('diagonal',) | ('nokernel',) according to the Lean model"""
+    out = {}
+    for pr, rep in zip(prepared, drv.batch([best_graph_request(pr) for pr in prepared])):
+        tag = rep[0] if isinstance(rep, list) else str(rep)
+        out[pr.key()] = ("graph", rep[3] == "true") if tag == "graph" else (str(tag),)
+    return out
+
+
 def run_graphs(chk, drv, prepared):
     reqs = [best_graph_request(pr) for pr in prepared]
     mism = 0
